@@ -262,18 +262,40 @@ CLAIMED["C12"] = {
     "design_ref": "DESIGN.md §5 C12, §9.1",
 }
 
+CLAIMED["C09"] = {
+    "text": "Decides jump landing and frame balance of the control-flow generators, by induction over the AST, not the shape of whole compiled "
+            "programs: the generators of if / else / while / from-loops (every combination of to/through, step, colliding counter name) and of && || "
+            "`or` are evaluated abstractly over their MIR with opaque children; block lengths, positions and jump operands are exact linear expressions "
+            "in the opaque lengths, and a break / continue placeholder is a generic element at an opaque index of the body with an opaque frame count. "
+            "On each emitted word: (landing) every jump operand added to its instruction's position equals the start of an item of the word or its end; "
+            "(intended) it is the boundary the construct's meaning names (else arm / end, test, first instruction after the loop, step code); (balance) "
+            "walking the word as a control-flow graph, every position is reached with a single frame depth, the end with depth 0, and break / continue pop "
+            "exactly the frames open at them; (contract) scopes_since_loop, evaluated on 45 scripted scope stacks, is (#block scopes up to the loop)+1 and "
+            "fails across a function boundary, each block construct's parser function opens exactly one scope of its kind around the body and closes it, "
+            "the else scope is not nested in the if scope, and the generators place the body exactly one frame deep; (handlers / loop / return) if_stmt, "
+            "while_loop, jmp, jmp_pop, done, else_stmt, ret signal the exit states the word machine assumes (tables by abstract interpretation), "
+            "Function::run applies Goto* without the +1 step and PushScope / PopScope with it, opens / closes one frame each, and on ret drops the "
+            "function's block frames (labels recognised by pop_until_function). Not decided: operand-stack shapes, what the children's code is.",
+    "technique": "static analysis: abstract interpretation of the generators' MIR with a linear-expression domain (exact normal forms, no solver) to symbolic instruction words; CFG walk of the words; handler decision tables; MIR reachability in the interpreter loop",
+    "design_ref": "DESIGN.md §5 C09, §9.1",
+}
+
+CLAIMED["C01"] = {
+    "text": "Decides the control-transfer clause only, not what programs print: with the engine of C09, for every shape of if / else / while / "
+            "from-loop (to/through, step, colliding counter) with a generic break or continue in the body, each jump lands on the boundary the "
+            "construct's meaning names (if-false -> else arm or past the statement; end of then-arm -> past the statement; loop test false -> first "
+            "instruction after the loop; back edge -> first instruction of the test; break -> after the loop; continue -> back edge (while) / step "
+            "code (from); && || `or` skip exactly the right operand); a from-loop parks counter and bound in two distinct registers, tests them with < "
+            "(to) or <= (through), adds the step (default make_int 1) to the counter with += after the body and frees the registers unless the name "
+            "collides; `return v` is `<v> ret`; the handlers of if_stmt / while_loop jump on false and fall through on true, jmp / jmp_pop / done / "
+            "else_stmt / ret signal what the generators rely on, and Function::run applies them (jumps without the +1 step, return after dropping the "
+            "block frames). Each is a necessary condition of C01: breaking it changes the output of some core program. Expression values, printed "
+            "output and the failure report (C17) are not decided here.",
+    "technique": "static analysis: abstract interpretation of the generators' MIR with a linear-expression domain to symbolic instruction words, landing points compared as exact normal forms; handler decision tables; MIR reachability",
+    "design_ref": "DESIGN.md §5 C01, §9.1",
+}
+
 NOT_APPLICABLE = {
-    "C01": "the observable is the printed output of whole programs: the meaning of if / while / from-loops / break / continue / return rests on relative jump "
-           "offsets that the generators compute from the lengths of recursively compiled blocks, and on the run-time interplay of frames and values. The symbolic "
-           "generator evaluation built for C15 / C12 (analysis/seqgen.py) keeps block lengths opaque, so it decides emission order and constant skip counts but not "
-           "where a loop's back edge or a rewritten break lands; deciding that needs symbolic arithmetic over block lengths handed to a solver, or running the "
-           "generated code -- both outside this family. Structural fragments of C01 are decided elsewhere: failures stop at the failing statement with a trace "
-           "(C17), operators and conditions are well-typed (C02), evaluation order (C15). DESIGN.md §5 C01",
-    "C09": "a property of the compiler's *output* on every control-flow path (jump landing points, one close per opened scope frame including break / continue / "
-           "return from any depth, operand-stack shape). The loop generators rewrite Break / Continue placeholders found at arbitrary positions inside an already "
-           "compiled (for the analysis: opaque) body and emit offsets that are affine in several child lengths; no sound static argument within reach bounds them "
-           "without symbolic length arithmetic (a solver) or a bytecode verifier run on emitted programs (translation validation). The two constructs whose skip "
-           "count is a constant plus one child length are decided: && / || under C15.short, `or` under C12.or. DESIGN.md §5 C09",
 }
 
 # no hook commits exist; the only commits made to /repo are unguarded "fix:" repairs of genuine defects (see known_findings.json)
